@@ -215,7 +215,7 @@ fn mixed_templates<P: G>(n: usize, d: usize, depth: usize) -> Tpl<P> {
             }
             let ctx = contexts()[pos % 6];
             let built = build_cached::<P>(&cfg, &wit).honest();
-            let proof = lib_prove(&built, &ctx, &mut HRng::chacha(200 + pos as u64)).honest();
+            let proof = lib_prove_honest(&built, &ctx, &mut HRng::chacha(200 + pos as u64));
             row.push((built.statement.clone(), proof, ctx));
         }
         members.push(row);
